@@ -118,13 +118,17 @@ impl Connection {
     ///
     /// If [`NotificationProtocol`](super::NotificationProtocol) was the one that initiated
     /// shut down, it's not notified of connection getting closed.
-    async fn close_connection(self, notify_protocol: NotifyProtocol) {
+    async fn close_connection(mut self, notify_protocol: NotifyProtocol) {
         tracing::trace!(
             target: LOG_TARGET,
             peer = ?self.peer,
             ?notify_protocol,
             "close notification protocol",
         );
+
+        // mark the shutdown channel closed before anything else so that `NotificationProtocol`
+        // can tell whether a close notice concerns the connection it currently tracks as open
+        self.rx.close();
 
         let _ = self.inbound.close().await;
         let _ = self.outbound.close().await;
